@@ -452,6 +452,103 @@ fn unmerged_histories(ctx: &Ctx, init: (usize, usize), depth: usize) {
     ctx.extra_add("unmerged_history_transitions", t);
 }
 
+/// Geometries at the top of the size range: byte sizes within a page of usize::MAX with huge
+/// page sizes (a handful of pages), created directly and grown into by enlarge. Page count,
+/// marks on the first and last page, harvest and clone are compared with exact (128-bit)
+/// arithmetic.
+fn huge_geometries(ctx: &Ctx) {
+    let top = usize::MAX;
+    let cases: Vec<(usize, usize)> = vec![
+        (top - 5, 1 << 60),
+        (top, 1 << 60),
+        (top, 1 << 63),
+        (top, top),
+        (top - 1, top),
+        (1, top),
+        ((1 << 63) + 7, (1 << 62) + 1),
+        (top - (1 << 59), 1 << 60),
+        (top - (1 << 60) + 1, 1 << 60),
+        (top - (1 << 60) + 2, 1 << 60),
+        (top, (1 << 44) + 3),
+    ];
+    let mut t = 0u64;
+    for (b, p) in cases {
+        let want_pages = ((b as u128 + p as u128 - 1) / p as u128) as usize;
+        for route in 0..3usize {
+            t += 1;
+            ctx.case(true);
+            let rp = || json!({"byte_size": format!("{:#x}", b), "page_size": format!("{:#x}", p), "route": (["new", "new(1 page) + enlarge", "new(0) + enlarge + enlarge"][route])});
+            let describe = || ("C09/huge-geometry".to_string(), format!("byte_size {:#x} page {:#x} route {}", b, p, route), rp());
+            let r = crate::crash::guarded(ctx, &describe, || {
+                crate::crash::quiet_unwind(|| {
+                    let pz = NonZeroUsize::new(p).unwrap();
+                    let mut early: Option<usize> = None;
+                    let bm = match route {
+                        0 => AtomicBitmap::new(b, pz),
+                        1 => {
+                            let first = p.min(b);
+                            let mut bm = AtomicBitmap::new(first, pz);
+                            bm.set_bit(0);
+                            early = Some(0);
+                            bm.enlarge(b - first);
+                            bm
+                        }
+                        _ => {
+                            let mut bm = AtomicBitmap::new(0, pz);
+                            bm.enlarge(b / 2);
+                            if bm.len() > 0 {
+                                bm.set_bit(bm.len() - 1);
+                                early = Some(bm.len() - 1);
+                            }
+                            bm.enlarge(b - b / 2);
+                            bm
+                        }
+                    };
+                    let mut errs: Vec<String> = Vec::new();
+                    if bm.len() != want_pages || bm.byte_size() != b {
+                        errs.push(format!("len() = {}, byte_size() = {:#x}; expected {} pages", bm.len(), bm.byte_size(), want_pages));
+                    } else {
+                        let mut want: BTreeSet<usize> = early.into_iter().collect();
+                        // the last byte lies in the last page, the first byte in page 0
+                        bm.set_addr_range(b - 1, 1);
+                        want.insert(want_pages - 1);
+                        bm.mark_dirty(0, 1);
+                        want.insert(0);
+                        for k in 0..want_pages.min(70) {
+                            if bm.is_bit_set(k) != want.contains(&k) {
+                                errs.push(format!("page {} set = {}, expected {}", k, bm.is_bit_set(k), want.contains(&k)));
+                            }
+                        }
+                        if bm.is_bit_set(want_pages) || !bm.is_addr_set(b - 1) {
+                            errs.push("pages at or beyond the page count read as dirty, or the last byte as clean".into());
+                        }
+                        let c = bm.clone();
+                        let got = words_to_set(&bm.get_and_reset());
+                        if got != want {
+                            errs.push(format!("fetch-and-clear reported {:?}, expected {:?}", got, want));
+                        }
+                        if words_to_set(&c.get_and_reset()) != want || (0..want_pages.min(70)).any(|k| bm.is_bit_set(k)) {
+                            errs.push("clone differs, or the bitmap is not empty after fetch-and-clear".into());
+                        }
+                    }
+                    errs
+                })
+            });
+            match r {
+                Some(Ok(errs)) => {
+                    for e in errs {
+                        ctx.fail("C09/huge-geometry/wrong-state", &format!("byte_size {:#x}, page size {:#x}, built by {}: {}", b, p, ["new", "new + enlarge", "new(0) + two enlarges"][route], e), rp());
+                    }
+                }
+                Some(Err(_)) => ctx.fail("C09/huge-geometry/panic", &format!("byte_size {:#x}, page size {:#x}, built by {}: an operation panicked", b, p, ["new", "new + enlarge", "new(0) + two enlarges"][route]), rp()),
+                None => {}
+            }
+        }
+    }
+    ctx.add_transitions(t);
+    ctx.add_traces(t);
+}
+
 fn closure(ctx: &Ctx, init: (usize, usize), max_pages: usize, full: bool) {
     let m0 = Model {
         byte_size: init.0,
@@ -603,7 +700,7 @@ fn boundary(ctx: &Ctx, pages: usize, page: usize, slack: usize, depth2: bool) {
 
 pub fn run(tier: Tier, replay: Option<String>) -> i32 {
     let ctx = crate::new_ctx("C09", tier, "model_checking", &replay);
-    ctx.set_rule("E1: BFS to an empty frontier over every public operation (full argument ranges 0..=bytes+2p plus values around isize::MAX/usize::MAX) on tiny AtomicBitmaps (<= 6 pages, page size 1..3, byte sizes +-1 around page multiples); state = complete concrete state (byte_size, page_size, set of dirty pages as decoded from the raw words); every transition is executed on the real bitmap, rebuilt by replaying the shortest history, and every observable (len, byte_size, is_bit_set, is_addr_set, dirty_at, slices, nested slices, raw words) is compared with a BTreeSet model. Plus all histories of 3 (thorough 4) operations over a reduced alphabet (single-page and past-the-end marks, enlarge, harvest, resets, clone) WITHOUT merging states, so that state kept beside the bits cannot hide behind the state key. Plus depth-1/2 sweeps on word-boundary configurations (63..129 pages, page sizes 1,3,5,7,4096,4097).");
+    ctx.set_rule("E1: BFS to an empty frontier over every public operation (full argument ranges 0..=bytes+2p plus values around isize::MAX/usize::MAX) on tiny AtomicBitmaps (<= 6 pages, page size 1..3, byte sizes +-1 around page multiples); state = complete concrete state (byte_size, page_size, set of dirty pages as decoded from the raw words); every transition is executed on the real bitmap, rebuilt by replaying the shortest history, and every observable (len, byte_size, is_bit_set, is_addr_set, dirty_at, slices, nested slices, raw words) is compared with a BTreeSet model. Plus all histories of 3 (thorough 4) operations over a reduced alphabet (single-page and past-the-end marks, enlarge, harvest, resets, clone) WITHOUT merging states, so that state kept beside the bits cannot hide behind the state key. Plus geometries at the top of the size range (byte sizes within a page of usize::MAX, page sizes up to usize::MAX; built directly and by enlarge) against 128-bit arithmetic. Plus depth-1/2 sweeps on word-boundary configurations (63..129 pages, page sizes 1,3,5,7,4096,4097).");
     ctx.assume("successors with more than 6 pages (after enlarge) are checked but not expanded further in the closure; the boundary sweeps cover large bitmaps");
     if let Some(r) = ctx.replay_of.clone() {
         let c = &r["case"];
@@ -672,6 +769,7 @@ pub fn run(tier: Tier, replay: Option<String>) -> i32 {
         for b in bcfg {
             s.spawn(move || boundary(ctx, b.0, b.1, b.2, true));
         }
+        s.spawn(move || huge_geometries(ctx));
         let depth = if tier.thorough() { 4 } else { 3 };
         for init in [(2usize, 1usize), (5, 2), (6, 3), (63, 1), (4096 * 2 - 1, 4096)] {
             s.spawn(move || unmerged_histories(ctx, init, depth));
